@@ -80,8 +80,11 @@ macro_rules! observe_impl {
                 v.dedup();
                 v
             };
+            // every length in the thorough tier and for short vectors; otherwise the lengths around
+            // the byte / half-word / word sizes
+            let lens: Vec<usize> = if ctx.thorough() || full || n <= 80 { (0..=65).collect() } else { vec![0, 1, 2, 3, 7, 8, 9, 31, 32, 33, 62, 63, 64, 65] };
             for &s in &starts {
-                for len in 0..=65usize {
+                for &len in &lens {
                     let valid = len >= 1 && len <= 64 && s + len <= n;
                     let kf = $mutable && len >= 1 && len <= 64 && s + len == n;
                     let want = if valid { Some(r.get_bits(s, len)) } else { None };
